@@ -187,7 +187,7 @@ func (w *world) gCand(c *disruption.Candidate) string {
 	for _, p := range pods {
 		costs = append(costs, gz(evictionUnits(disruptionutils.EvictionCost(w.ctx, p))))
 	}
-	return fmt.Sprintf("(mkCC %s %s %s %s %s %s %s)", gs(c.Name()), gs(name), gs(ct), gs(zone),
+	return fmt.Sprintf("(mkCC %s %s %s %s %s %s %s %s)", gs(c.Name()), gs(c.NodePool.Name), gs(name), gs(ct), gs(zone),
 		gOptStr(c.Labels()[cloudprovider.ReservationIDLabel]), kit.GList(costs), gz(units(c.Price)))
 }
 
@@ -346,4 +346,19 @@ func (w *world) gObs(cmd disruption.Command, cs []*disruption.Candidate) (string
 		nnew = len(cmd.Results.NewNodeClaims)
 	}
 	return fmt.Sprintf("(mkObs %s %s %d %s)", oc, pods, nnew, w.expectedPods(cs)), problems
+}
+
+// gState renders what the ShouldDisrupt predicates read of a candidate.
+func (w *world) gState(c *disruption.Candidate) string {
+	it, _, _, pods := c.VerifInternals()
+	_, hasCT := c.Labels()[v1.CapacityTypeLabelKey]
+	_, hasZone := c.Labels()[corev1.LabelTopologyZone]
+	costs := make([]string, 0, len(pods))
+	for _, p := range pods {
+		costs = append(costs, gz(evictionUnits(disruptionutils.EvictionCost(w.ctx, p))))
+	}
+	st := fmt.Sprintf("(mkCSt %s %s %s %s %s %s %s)", kit.GBool(c.NodePool.Spec.Replicas != nil), kit.GBool(it != nil), kit.GBool(hasCT), kit.GBool(hasZone),
+		kit.GBool(c.NodePool.Spec.Disruption.ConsolidateAfter.Duration != nil), kit.GBool(c.NodePool.Spec.Disruption.ConsolidationPolicy == v1.ConsolidationPolicyWhenEmpty),
+		kit.GBool(c.NodeClaim.StatusConditions().Get(v1.ConditionTypeConsolidatable).IsTrue()))
+	return fmt.Sprintf("(%s, %s, %s)", gs(c.Name()), st, kit.GList(costs))
 }
